@@ -122,7 +122,7 @@ def sysroot_lib():
     return os.path.join(out, 'lib')
 
 
-def scan(roots, features, local=False, extra_prelude='', keep=False, only=None):
+def scan(roots, features, local=False, extra_prelude='', keep=False, only=None, extra_deps=''):
     """run the driver; returns Scan. Fresh target dir each time (mandatory: cargo would skip the wrapper)."""
     alg.reset()
     t0 = time.time()
@@ -134,7 +134,7 @@ def scan(roots, features, local=False, extra_prelude='', keep=False, only=None):
         with open(os.path.join(crate, 'Cargo.toml'), 'w') as f:
             f.write('[package]\nname = "roots"\nversion = "0.0.0"\nedition = "2021"\n[lib]\npath = "src/lib.rs"\n[dependencies]\n'
                     'vek = { path = "%s", default-features = false, features = [%s] }\n'
-                    'num-traits = { version = "0.2.15", default-features = false }\napprox = { version = "0.5.0", default-features = false }\n[workspace]\n' % (REPO, feats))
+                    'num-traits = { version = "0.2.15", default-features = false }\napprox = { version = "0.5.0", default-features = false }\n%s\n[workspace]\n' % (REPO, feats, extra_deps))
         lock = os.path.join(REPO, 'Cargo.lock')
         if os.path.exists(lock): shutil.copy(lock, os.path.join(crate, 'Cargo.lock'))
         with open(os.path.join(crate, 'src', 'lib.rs'), 'w') as f:
